@@ -57,6 +57,13 @@ func genWillMsg(t *rapid.T) snref.Pkt {
 	return gwgen.WillMsg(vf.Payload{N: n, Fill: rapid.Byte().Draw(t, "wfill")}.Bytes())
 }
 
+// genRefusalCode draws a non-zero CONNACK return code: the five MQTT 3.1.1 defines and values it
+// reserves (a broker speaking a later protocol version, or a broken one, sends e.g. 0x80..0x9f);
+// "accepted" is code 0 and nothing else.
+func genRefusalCode(t *rapid.T) byte {
+	return rapid.SampledFrom([]byte{1, 2, 3, 4, 5, 5, 6, 0x10, 0x7f, 0x80, 0x86, 0x87, 0x9f, 0xfd, 0xfe, 0xff}).Draw(t, "refusal")
+}
+
 // genConnectPhase draws 1-3 connect exchanges made of CONNECT followed by any
 // order and multiplicity of AUTH / WILLTOPIC / WILLMSG, with small time gaps.
 func genConnectPhase(t *rapid.T, allowKeepalive0 bool) gwsim.Script {
@@ -65,7 +72,7 @@ func genConnectPhase(t *rapid.T, allowKeepalive0 bool) gwsim.Script {
 	switch rapid.IntRange(0, 7).Draw(t, "connack") {
 	case 0:
 	case 1, 2:
-		sc.Auto.Connack = gwgen.U8(byte(rapid.IntRange(1, 5).Draw(t, "code")))
+		sc.Auto.Connack = gwgen.U8(genRefusalCode(t))
 	default:
 		sc.Auto.Connack = gwgen.U8(0)
 	}
@@ -554,7 +561,7 @@ func genPreAdmission(t *rapid.T) gwsim.Script {
 	switch rapid.IntRange(0, 3).Draw(t, "connack") {
 	case 0:
 	case 1:
-		sc.Auto.Connack = gwgen.U8(5)
+		sc.Auto.Connack = gwgen.U8(genRefusalCode(t))
 	default:
 		sc.Auto.Connack = gwgen.U8(0)
 	}
